@@ -7,6 +7,7 @@ import (
 	"crypto/sha1"
 	"fmt"
 	"math/big"
+	"regexp"
 	"testing"
 
 	"perun.network/go-perun/channel"
@@ -130,6 +131,11 @@ func firstDiff(a, b string) string {
 	}
 	return fmt.Sprintf("at offset %d: ...%s... vs ...%s...", i, cut(a), cut(b))
 }
+
+var addrRe = regexp.MustCompile(`@[0-9a-f]+`)
+
+// sampleDump is a dump without the (run-dependent) identities of shared references.
+func sampleDump(root interface{}) string { return trunc(addrRe.ReplaceAllString(walk.Dump(root, false), ""), 500) }
 
 // ---- shapes ----
 
@@ -406,7 +412,7 @@ func runC19(t *testing.T, res *report.Result) {
 		c.state(sh)
 		res.Count("state_shapes", 1)
 		if i%97 == 0 {
-			res.Sample(8, map[string]interface{}{"type": "State", "shape": sh.name(), "dump": trunc(walk.Dump(sh.build(), false), 500)})
+			res.Sample(8, map[string]interface{}{"type": "State", "shape": sh.name(), "dump": sampleDump(sh.build())})
 		}
 	}
 	for _, ss := range sigShapes(2) {
@@ -431,7 +437,7 @@ func runC19(t *testing.T, res *report.Result) {
 		res.Count("params_shapes", 1)
 		if i%97 == 0 {
 			p, _ := b.spec().build()
-			res.Sample(8, map[string]interface{}{"type": "Params", "shape": b.name(), "dump": trunc(walk.Dump(p, false), 500)})
+			res.Sample(8, map[string]interface{}{"type": "Params", "shape": b.name(), "dump": sampleDump(p)})
 		}
 	}
 	if len(res.Caps) == 0 {
